@@ -202,7 +202,7 @@ class World:
     def _default_plan(self, rng):
         N, T = self.natives, self.tokens
         plan = [(N[0], N[1]), (N[0], T[0]), (T[1], N[1]), (T[0], T[1])]
-        extra = []
+        extra = [(N[0], T[1]), (N[1], T[0])]     # close triangles (routes that revisit an asset need one)
         if len(T) > 2:
             extra += [(T[1], T[2]), (N[1], T[2]), (T[2], N[0])]
         if len(N) > 2:
@@ -211,7 +211,7 @@ class World:
             extra += [(T[3], T[2]), (N[0], T[3])]
         rng.shuffle(extra)
         seen = set(frozenset(p) for p in plan)
-        for e in extra[:rng.choice([0, 1, 2, 2, 3])]:
+        for e in extra[:rng.choice([0, 1, 2, 2, 3, 3])]:
             if frozenset(e) not in seen:
                 plan.append(e)
                 seen.add(frozenset(e))
@@ -366,7 +366,7 @@ class World:
     def route_ops_json(self, hops):
         return [{"halo_swap": {"offer_asset_info": ainfo(o), "ask_asset_info": ainfo(a)}} for o, a in hops]
 
-    def op_route(self, actor, hops, amount, minimum_receive=None, to=None, entry_asset=None):
+    def op_route(self, actor, hops, amount, minimum_receive=None, to=None, entry_asset=None, extra_funds=None):
         """hops: list of (offer_asset, ask_asset). Entry asset defaults to the first hop's offer."""
         entry_asset = entry_asset or hops[0][0]
         inner = {"execute_swap_operations": {"operations": self.route_ops_json(hops),
@@ -375,6 +375,10 @@ class World:
         sem = {"hops": list(hops), "amount": amount, "min": minimum_receive, "to": to, "entry_asset": entry_asset}
         if entry_asset[0] == "n":
             funds = [[entry_asset[1], str(amount)]] if amount > 0 else []
+            for d, a in (extra_funds or []):
+                if d != entry_asset[1] and a > 0:
+                    funds.append([d, str(a)])
+            funds = sorted(funds)
             sem["funds"] = [(d, int(a)) for d, a in funds]
             return {"kind": "route", "actor": actor, "contract": self.router, "msg": inner, "funds": funds, "sem": sem}
         sem["funds"] = []
